@@ -5,18 +5,29 @@ import os
 from . import common as C
 
 
-def vt_stream_stage(run, tier, hb):
+def vt_stream_stage(run, tier, hb, replay=None):
     """C02 over the vector-tile operations (from_vectortiles_merged, vectortiles_update_properties): the cases of C10 and C11,
     judged on ONE clause -- the box stream delivers for the coordinate what the lookup returns (vt_stream_eq_lookup)."""
     d = C.outdir("C02_vt")
     n = 0
     for prop in ("C10", "C11"):
         cases = os.path.join(d, "cases_%s.ndjson" % prop)
-        mc = C.run_tlc("mc/MC_VT.tla", "mc/MC_%s_quick.cfg" % prop, "C02_mc_vt_" + prop, workers=8, replay_out=cases, timeout=2400)
-        C.require_clean(mc, "MC_VT")
-        run.add_tlc(mc)
+        if replay:
+            # the failing vector-tile cases of the replay file (merge cases in the first pass, update cases in the second)
+            rec = json.load(open(replay))
+            op = "from_vectortiles_merged" if prop == "C10" else "vectortiles_update_properties"
+            sel = [fl["replay_case"] for fl in rec["failures"] if fl.get("clause") == "vt_stream_eq_lookup" and fl.get("operation") == op and fl.get("replay_case")]
+            if not sel:
+                continue
+            with open(cases, "w") as f:
+                for c in sel:
+                    f.write(json.dumps(c) + "\n")
+        else:
+            mc = C.run_tlc("mc/MC_VT.tla", "mc/MC_%s_quick.cfg" % prop, "C02_mc_vt_" + prop, workers=8, replay_out=cases, timeout=2400)
+            C.require_clean(mc, "MC_VT")
+            run.add_tlc(mc)
         case_list = C.read_ndjson(cases)
-        if prop == "C10" and tier == "quick":
+        if prop == "C10" and tier == "quick" and not replay:
             case_list = case_list[::4]                 # every 4th merge case in the quick tier
             with open(cases, "w") as f:
                 for c in case_list:
